@@ -6,7 +6,13 @@ let hexv c = match c with '0'..'9' -> Char.code c - 48 | 'a'..'f' -> Char.code c
 let ztab = Array.init 256 z_of_int
 let bytes_of s : z list =
   if s = "-" then [] else List.init (String.length s / 2) (fun i -> ztab.(hexv s.[2*i] * 16 + hexv s.[2*i+1]))
-let hexb (l : z list) = if l = [] then "-" else String.concat "" (List.map (fun b -> Printf.sprintf "%02x" (int_of_z b)) l)
+let rec int_of_pos p = match p with XH -> 1 | XO q -> 2 * int_of_pos q | XI q -> 2 * int_of_pos q + 1
+let iz z = match z with Z0 -> 0 | Zpos p -> int_of_pos p | Zneg p -> - (int_of_pos p)
+let hexdig = "0123456789abcdef"
+let add_hexb buf (l : z list) =
+  if l = [] then Buffer.add_char buf '-'
+  else List.iter (fun b -> let v = iz b land 255 in Buffer.add_char buf hexdig.[v lsr 4]; Buffer.add_char buf hexdig.[v land 15]) l
+let hexb (l : z list) = let b = Buffer.create 64 in add_hexb b l; Buffer.contents b
 let bool_of s = s <> "0"
 let parse (w : string list) : op option =
   let a = Array.of_list w in
@@ -68,10 +74,11 @@ let () =
          Buffer.add_string buf res;
          Buffer.add_string buf " ;";
          for k = 0 to nh - 1 do
-           match cobs !c (nat_of_int k) with
+           match lget !c.c_arrs (nat_of_int k) with
            | None -> ()
-           | Some (e, els) ->
-             Buffer.add_string buf (Printf.sprintf " %x:%s:%x:" k (h e) (List.length els));
-             if els = [] then Buffer.add_string buf "-" else List.iter (fun x -> Buffer.add_string buf (hexb x)) els
+           | Some a ->
+             (* the bytes of all elements: concatenation of the observable cobs (element i = bytes [i*esz, (i+1)*esz)) *)
+             Buffer.add_string buf (Printf.sprintf " %x:%s:%s:" k (h a.a_esz) (h a.a_cnt));
+             add_hexb buf (c_content !c a)
          done;
          print_endline (Buffer.contents buf)))
